@@ -106,6 +106,22 @@ ARITY = [
     "let u = concat (/a);\nres u on get -> {};\n",
     "let g h = h str;\nlet f x y = { 'a x, 'b y };\nres / on get -> <g f>;\n",
     "let f x = x;\nlet g = f;\nres / on get -> <g str num>;\n",
+    # the name of a rec binder or of a parameter used after its scope has ended: not in scope, never a panic
+    "let @pair = { 'first rec x { 'next x }, 'second x };\nres / on get -> <@pair>;\n",
+    "res /tree on get -> (rec x { 'label str, 'children [x] });\nres /node on get -> <x>;\n",
+    "let f y = { 'a y };\nlet g = { 'b y };\nres / on get -> <g>;\n",
+]
+
+
+# several modules with recursive declarations at the same place of their trees (the same node index): every implicit
+# component is keyed by its module too
+MODULE_TWINS = [
+    {"file:///w/a.oal": "let label = str;\nlet list = { 'next list };\n", "file:///w/b.oal": "let home = / on get -> <home>;\n",
+     "file:///w/main.oal": 'use "a.oal" as a;\nuse "b.oal" as b;\nres /items on get -> a.list;\nres b.home;\n'},
+    {"file:///w/a.oal": "let t = { 'k [t] };\n", "file:///w/b.oal": "let t = /x on get -> <t> :: <status=404, (rec r [r])>;\n",
+     "file:///w/main.oal": 'use "a.oal" as a;\nuse "b.oal" as b;\nres /a on get -> <a.t>;\nres b.t;\n'},
+    {"file:///w/x/m.oal": "let t = { 'n num, 'kids [t] };\n", "file:///w/y/m.oal": "let t = [{ 'up t }];\n",
+     "file:///w/main.oal": 'use "x/m.oal" as x;\nuse "y/m.oal" as y;\nres /t on get -> <x.t> :: <status=404, y.t>;\n'},
 ]
 
 
@@ -173,6 +189,9 @@ def check(ctx):
             q = {"mods": dict(p["mods"]), "main": p["main"], "features": ["arity"], "ast": None}
             q["mods"][q["main"]] = mutate_arity(ctx.rng, q["mods"][q["main"]])
             ps.append(q)
+    if not ctx.replay:
+        for mods in MODULE_TWINS:
+            ps.append({"mods": mods, "main": "file:///w/main.oal", "features": ["module-twins"], "ast": None})
     progs.feature_stats(ctx, ps)
     if not ctx.replay:
         # the evaluator tie: outcome (document, located error, panic site) of eval.rs = outcome of Model/Eval.v
